@@ -13,6 +13,9 @@ import PhpVerif.Gen.Tables5
 import PhpVerif.Gen.Terms7
 import PhpVerif.Gen.Terms5
 import PhpVerif.Gen.Builder
+import PhpVerif.Model.Scan
+import PhpVerif.Gen.ScanDFA
+import PhpVerif.Gen.ScanCode
 /-
 Line-protocol driver: runs the executable model definitions on the operations the Go harness
 also runs on the real code.  One request per line, one answer per line.  Core only (no Mathlib)
@@ -272,6 +275,27 @@ def runParse (t : YYTab) (tbl : PathTable) (ws : String) : String :=
         | none => "_"
       s!"{c} {s.aux.reports} {root}"
 
+/-! `scan <0|1> <hex>`: the executable scanner model on a source (flag: version >= 7.3) -/
+def scanProg : ScanProg :=
+  mkScanProg Gen.dfaRows Gen.scanTrs Gen.scanEof Gen.scanToState Gen.scanToStateAct Gen.scanFromState
+
+def ffStr (f : FFTok) : String := s!"{f.id}:{f.sp}:{f.ep}:{f.sl}:{f.el}"
+
+def tokOutStr (t : TokOut) : String :=
+  let pos := match t.pos with
+    | some (sl, el, sp, ep) => s!"{sl}:{el}:{sp}:{ep}"
+    | none => "-"
+  s!"{t.id},{t.ts},{t.te},{pos}|" ++ "+".intercalate (t.ffs.map ffStr)
+
+def runScan (ge73 : Bool) (src : Bytes) : String :=
+  let s0 := initLex src.toArray ge73 113
+  let (s, toks) := lexAllModel scanProg (src.length + 16) s0 []
+  let errs := "+".intercalate (s.errs.map (fun e => s!"{e.1}:{e.2.1}:{e.2.2.1}:{e.2.2.2.1}:{e.2.2.2.2}"))
+  let fault := match s.fault with
+    | some m => "fault:" ++ m.replace " " "_"
+    | none => "-"
+  ";".intercalate (toks.map tokOutStr) ++ " E " ++ (if errs.isEmpty then "-" else errs) ++ " N " ++ natsStr s.nl ++ " X " ++ fault
+
 def handle (ws : List String) : String :=
   match ws with
   | ["pool", bs, n] =>
@@ -370,6 +394,7 @@ def handle (ws : List String) : String :=
     match pTree (enc.splitOn ",") with
     | some (t, []) => "x" ++ toHex (render litBytes (chunks C15.realCfg false t))
     | _ => "bad-op"
+  | ["scan", f, h] => runScan (f == "1") (unhex h)
   | ["parse", "7", ts] => runParse Gen.tables7 pathTable7 ts
   | ["parse", "5", ts] => runParse Gen.tables5 pathTable5 ts
   | ["yy", "7", cs] => runYY Gen.tables7 (parseNats cs)
